@@ -18,6 +18,10 @@ def grids(draw, max_len=None):
     """(q, k0, n): grid step 1/q, t_start = k0/q, t_end = (k0+n)/q"""
     q = draw(st.sampled_from(QS))
     k0 = draw(st.integers(-16 * q, 16 * q))
+    if draw(st.integers(0, 11)) == 0:
+        # a recording far away from time zero (|t_start| of the order of 10^6, still
+        # exactly representable on the grid): code that works with absolute times
+        k0 += draw(st.sampled_from([1, -1])) * (1 << 20) * q
     hi = 64 * q if max_len is None else min(64 * q, max_len)
     n = draw(st.one_of(st.integers(1, min(40, hi)),
                        st.integers(1, min(12, hi)),
@@ -119,6 +123,17 @@ def int_train_lists(draw, min_trains=2, max_trains=2, max_spikes=8, max_len=None
     trains = []
     for _ in range(nt):
         trains.append(draw(train_on_grid(n, pool, trains, max_spikes, related)))
+    shape = draw(st.integers(0, 29))
+    if shape == 0 and n >= 8:
+        # sparse trains at opposite ends of the recording: the only shape in which "a
+        # missing neighbour counts as the recording length" decides a coincidence
+        for k in range(len(trains)):
+            lo, hi = ((0, n // 4) if k % 2 == 0 else (n - n // 4, n))
+            trains[k] = _uniq_sorted(draw(st.lists(st.integers(lo, hi), min_size=1, max_size=2)))
+        return dict(q=q, k0=k0, n=n, trains=trains, sparse_far=True)
+    if shape == 1 and k0 <= 0 <= k0 + n:
+        # a train whose only spike is at time 0.0 exactly
+        trains[draw(st.integers(0, len(trains) - 1))] = [-k0]
     if draw(st.sampled_from([False] * 6 + [True])):
         # fine mode: the same structure on a 2^14 times finer grid, interior
         # spikes moved by a few fine units - almost (but not exactly) shared
@@ -196,6 +211,10 @@ def maxtau_for(draw, g, allow_none=True, positive_only=False, bite=False):
         opts += ["zero"]
         if allow_none:
             opts += ["none", "none"]
+    if g.get("sparse_far") and not (allow_none and not positive_only and draw(st.integers(0, 3)) == 0):
+        # bounds between half and the whole recording, or just above it
+        return draw(st.one_of(st.integers(n + 1, 2 * n - 1).map(lambda v: v / (2.0 * q)),
+                              st.sampled_from([n, n + 1, 2 * n]).map(lambda v: v / float(q))))
     kind = draw(st.sampled_from(opts))
     if kind == "none":
         return None
@@ -266,9 +285,13 @@ def subinterval_for(draw, g):
 @st.composite
 def interval_arg_for(draw, g):
     """None, one sub-interval, or a list of disjoint increasing sub-intervals"""
-    kind = draw(st.sampled_from(["none", "one", "one", "list"]))
+    kind = draw(st.sampled_from(["none", "one", "one", "list", "whole"]))
     if kind == "none":
         return None
+    if kind == "whole":
+        # explicitly the whole recording (NOT the same as None for discrete profiles:
+        # events exactly on the edges are not strictly inside)
+        return [g["k0"] / g["q"], (g["k0"] + g["n"]) / g["q"]]
     if kind == "one":
         return list(draw(subinterval_for(g)))
     q, k0, n = g["q"], g["k0"], g["n"]
